@@ -10,12 +10,12 @@ env = dict(os.environ, PYTHONPATH=HERE)
 env.setdefault('PYVC_REPO', os.environ.get('VERIF_REPO', '/repo'))
 code = ('import importlib,json\nout=[]\nfor m in %r:\n  mod=importlib.import_module("contracts."+m)\n  for u in mod.UNITS:\n    out.append((m,u.name,bool(u.trusted),bool(getattr(u,"deferred",False))))\nprint(json.dumps(out))' % mods)
 units = json.loads(subprocess.run(['python3-vt', '-c', code], capture_output=True, text=True, env=env, cwd=HERE, check=True).stdout)
-todo = [(m, n) for m, n, tr, de in units if pat in n and not tr and (not de or '--deferred' in sys.argv)]
+todo = [(m, n) for m, n, tr, de in units if (n == pat if '--exact' in sys.argv else pat in n) and not tr and (not de or '--deferred' in sys.argv)]
 def run(mn):
     m, n = mn
     t0 = time.time()
     try:
-        r = subprocess.run(['python3-vt', '-m', 'pyvc.worker', m, n], capture_output=True, text=True, env=env, cwd=HERE, timeout=tmo)
+        r = subprocess.run(['python3-vt', '-m', 'pyvc.worker', m, n, '--par', os.environ.get('PYVC_PAR', '14')], capture_output=True, text=True, env=env, cwd=HERE, timeout=tmo)
     except subprocess.TimeoutExpired:
         return n, None, f'TIMEOUT {tmo}s'
     for line in r.stdout.splitlines():
